@@ -67,6 +67,117 @@ def bitsd(u):
 
 
 # ---------------------------------------------------------------------------------------------
+# adversarial texts: every character that is special in SOME substitution / pattern mechanism
+# (regex patterns, regex / sed / printf / format replacement strings, vita's own placeholders), alone
+# and in the combinations that form escapes
+# ---------------------------------------------------------------------------------------------
+
+SPECIAL_CHARS = list("$&\\^.*+?()[]{}|%'`\"") + ["#", "@", "~", "/", "<", ">", "=", "!", ";", ":", ",", "-", "_"]
+ESCAPES = ["$1", "$&", "$$", "$`", "$'", "$0", "$2", "$9", "$10", "$11", "$99", "${1}", "$<a>", "$+", "$_", "$",
+           "\\1", "\\0", "\\\\", "\\&", "\\$", "\\n", "\\g<1>", "\\",
+           "%%", "%1", "%1%", "%%1", "1%%", "%%1%", "%1%%", "%%%", "%%%%", "%s", "%d", "%n", "%", "%%a%%", "%% 1%%",
+           "&", "&&", "&amp;", "{0}", "{}", "#{x}", "(?:", "[^", ".*", "^$", "a|b", "x{2}", "(", ")", "[", "]", "??/",
+           "/*", "*/", "//", "'", "`", "''"]
+MARKERS = ["%%1%%", "%%2%%", "%%3%%", "%%4%%", "%%9%%"]
+FILLERS = ["a", "K", "50", "x y", "R", "D", "abc", "<", "0", "1", "S1", " "]
+KNOWN_BAD = re.compile(r'["\\\n]|%%\d%%')       # the classes of the two known findings on string constants
+
+
+def adv_string(rng, safe):
+    """a text built from escape combinations, special characters and fillers.  safe = outside the classes of the
+       known findings (no double quote, backslash, newline, complete %%k%% marker)"""
+    for _ in range(50):
+        parts = []
+        for _ in range(rng.between(1, 5)):
+            x = rng.below(100)
+            if x < 50:
+                parts.append(rng.choice(ESCAPES))
+            elif x < 72:
+                parts.append(rng.choice(SPECIAL_CHARS))
+            elif x < 77 and not safe:
+                parts.append(rng.choice(MARKERS))
+            else:
+                parts.append(rng.choice(FILLERS))
+        out = "".join(parts)
+        if safe and KNOWN_BAD.search(out):
+            continue
+        return out
+    return "$1"
+
+
+def adv_name(rng):
+    """a variable name from the same alphabet (no blank-only / empty names, no quote, backslash, newline or complete
+       marker: those are the string-constant findings); mostly NOT an identifier"""
+    for _ in range(50):
+        n = adv_string(rng, True)
+        if rng.chance(0.5):
+            n = rng.choice(["x", "V", "_t", "p1", "Abc"]) + n
+        if rng.chance(0.3):
+            n = n + rng.choice(["x", "9", "_"])
+        if n.strip() and not n.startswith(" ") and not n.endswith(" ") and "\n" not in n:
+            return n
+    return "x$1"
+
+
+IDENT = re.compile(r"^[A-Za-z_][A-Za-z0-9_]*$")
+SPECIAL_CLASSES = [("$digit", re.compile(r"\$\d")), ("$&", re.compile(r"\$&")), ("$$", re.compile(r"\$\$")),
+                   ("$`", re.compile(r"\$`")), ("$'", re.compile(r"\$'")), ("$other", re.compile(r"\$(?![\d&$`'])")),
+                   ("\\digit", re.compile(r"\\\d")), ("\\other", re.compile(r"\\(?!\d)")),
+                   ("%%", re.compile(r"%%")), ("%digit", re.compile(r"%\d")), ("%other", re.compile(r"%(?![%\d])")),
+                   ("marker", re.compile(r"%%\d%%")), ("&", re.compile(r"&")), ("^", re.compile(r"\^")),
+                   (".", re.compile(r"\.")), ("*", re.compile(r"\*")), ("+", re.compile(r"\+")), ("?", re.compile(r"\?")),
+                   ("()", re.compile(r"[()]")), ("[]", re.compile(r"[\[\]]")), ("{}", re.compile(r"[{}]")),
+                   ("|", re.compile(r"\|")), ("'", re.compile(r"'")), ("`", re.compile(r"`")), ('"', re.compile(r'"'))]
+
+
+def special_classes(text):
+    return [k for k, rx in SPECIAL_CLASSES if rx.search(text)]
+
+
+def is_custom_var(t):
+    """a variable whose name is not the name of the harness input it reads (the C oracles declare only those)"""
+    return t[0] == "T" and t[1] == "var" and (t[2][1] >= len(VARS) or VARS[t[2][1]][0] != t[2][0])
+
+
+def has_custom_names(t):
+    return any(is_custom_var(tm) for tm in terminals_of(t))
+
+
+def names_class(t):
+    """do the variable names of the program contain one that is not an identifier"""
+    return "nonident" if any(tm[1] == "var" and not IDENT.match(tm[2][0]) for tm in terminals_of(t)) else "none"
+
+
+def repl_triples(rng, nrandom):
+    """(s, from, to) for the direct differential of vita::replace_all"""
+    out = []
+    tos = ESCAPES + MARKERS + [c for c in SPECIAL_CHARS] + ["", "x", "yx", "xy", "%%1%%x", "x%%1%%", "%%1%%%%1%%",
+                                                         'the "to"', "a\nb", "\x00", "\xff$1"]
+    froms = ["%%1%%", "%%2%%", "x", ".", "$", "a.c", "(", "[a-z]", "\\", "aa", "%", "%%", "^a", "a*", "$1", "a|b", ""]
+    for to in tos:
+        for frm in froms:
+            if frm in ("%%1%%", "%%2%%") or rng.chance(0.35):
+                f = frm or "q"
+                ss = ["(" + f + "+" + f + ")", f, f + f + f, "a" + f[:-1] + f + f[1:] + "b", "no occurrence",
+                      f[:-1], "", f + "$&" + f, "%" + f + "%", "abcabc", "aaaaa", "a.c abc a|b [a-z] ^a a*"]
+                out.append((rng.choice(ss), frm, to))
+                out.append((rng.choice(ss), frm, to))
+    alph = list("ab%$&\\.1(")
+    for _ in range(nrandom):
+        frm = "".join(rng.choice(alph) for _ in range(rng.between(1, 5))) if rng.chance(0.7) else \
+            rng.choice(["%%1%%", "%%3%%", "aa", "aba", ".", "$", "%%"])
+        to = adv_string(rng, False) if rng.chance(0.7) else \
+            "".join(rng.choice(alph + [frm]) for _ in range(rng.between(0, 4)))
+        parts = []
+        for _ in range(rng.between(0, 8)):
+            x = rng.below(10)
+            parts.append(frm if x < 4 else frm[:rng.below(len(frm) + 1)] if x < 6 else frm[rng.below(len(frm)):]
+                         if x < 7 else rng.choice(alph) if x < 9 else adv_string(rng, False))
+        out.append(("".join(parts), frm, to))
+    return out
+
+
+# ---------------------------------------------------------------------------------------------
 # symbols and typed program generation
 # ---------------------------------------------------------------------------------------------
 
@@ -182,6 +293,8 @@ class Gen:
         if kind in ("ci+", "ci-"):
             v = r.choice([0, 1, 2, 5, 31, 33, 1000, 46341, 2147483647])
             return ("T", "const:i", ("-" if kind == "ci-" else "") + str(v), dom)
+        if kind == "cs" and r.chance(0.3):
+            return ("T", "const:s", adv_string(r, r.chance(0.85)), dom)
         if kind == "cs":
             return ("T", "const:s", r.choice(["abc", "", "a b", "x", "hello world", "(a)", "1+2", "A,B", "it's", "100%", "a%b%%"
                                                 ]) if not r.chance(0.3) else r.choice(["abc", "abd", "S1"]), dom)
@@ -674,6 +787,9 @@ static void ps(const char*s){printf(" s:");if(!*s)printf("-");for(;*s;++s)printf
 static double ud(uint64_t u){double d;memcpy(&d,&u,8);return d;}
 /* the interpreter's own formula of FSIGMOID (real.h): used only to attribute a value mismatch */
 static double vc19_sig(double x){ if (x >= 0.0) return 1.0 / (1.0 + exp(-x)); return exp(x) / (1.0 + exp(x)); }
+/* AQ with the square computed by a correctly rounded operation (glibc's pow(y,2.0) is within 1 ulp, not correctly
+   rounded): used only to attribute a value mismatch to the accuracy of libm */
+static double vc19_aq(double x,double y){ return x / sqrt(1.0 + y * y); }
 """
 
 CPP_PRELUDE = r"""
@@ -716,8 +832,9 @@ def sh_retry(cmd, timeout):
     raise OracleTimeout(" ".join(cmd[:2]))
 
 
-def compile_and_run(tag, progs, inputs_of):
-    """progs: [(id, root dom, c text)].  Returns (values {id: [str]}, compile_errors {id: msg})."""
+def compile_and_run(tag, progs, inputs_of, cc="gcc"):
+    """progs: [(id, root dom, c text)].  Returns (values {id: [str]}, compile_errors {id: msg}).
+       cc = "gcc" (the value oracle) | "clang" (second opinion on a mismatch)"""
     os.makedirs(WORK, exist_ok=True)
     errors = {}
     live = list(progs)
@@ -754,8 +871,8 @@ def compile_and_run(tag, progs, inputs_of):
         main.append("return 0;}")
         with open(src, "w") as f:
             f.write("\n".join(lines) + "\n" + "\n".join(pre) + "\n" + "\n".join(main) + "\n")
-        rc, so, se = sh_retry(["gcc", "-std=gnu11", "-O0", "-w", "-fno-builtin", "-ffp-contract=off", "-fmax-errors=0",
-                               src, "-o", exe, "-lm"], 1200)
+        rc, so, se = sh_retry((["gcc", "-fmax-errors=0"] if cc == "gcc" else ["clang-14", "-ferror-limit=0"]) +
+                              ["-std=gnu11", "-O0", "-w", "-fno-builtin", "-ffp-contract=off", src, "-o", exe, "-lm"], 1200)
         if rc == 0:
             vals, start = {}, 0
             order = [p[0] for p in live]
@@ -973,6 +1090,16 @@ def run(chk, replay=None):
         broken.append("translator tools/translate_templates.py refuses the print-format machinery "
                       "(individual.cc / i_mep.cc / team.tcc): %s" % e)
 
+    repl_ok = False
+    try:
+        rx, changed3 = translate_templates.emit_replace(os.path.join(C.LEAN, "Vita", "C19", "GenReplace.lean"))
+        chk.cov["translated_replace_all"] = {"std_string_members_called": rx["calls"], "locals": rx["locals"]}
+        chk.cov["gen_replace_changed_vs_committed"] = bool(changed3)
+        repl_ok = True
+    except Refuse as e:
+        broken.append("translator tools/translate_templates.py refuses the body of vita::replace_all "
+                      "(src/utility/utility.cc): %s" % e)
+
     drv_ok = False
     if table_ok:
         ok, out = C.lake_build(["c19_driver"])
@@ -1023,6 +1150,55 @@ def run(chk, replay=None):
                 drv_ok = False
 
     phase("build vita+harness")
+    # ---- vita::replace_all itself: real code vs literal substitution (Python) vs the Lean model vs the
+    #      extracted body run by the Lean semantics of std::string ----------------------------------------
+    repl_replay = None
+    if replay:
+        repl_replay = json.load(open(replay)).get("replay", {}).get("repl")
+    triples = [tuple(unhx(h).decode("latin1") for h in repl_replay)] if repl_replay else \
+        ([] if replay else repl_triples(rng, 1500 if quick else 20000))
+    repl_fails = []
+    if triples:
+        rl = ["repl %s %s %s" % (hx(a), hx(b), hx(c)) for a, b, c in triples]
+        ra, rdeaths = C.run_lines(exe, rl)
+        rm = C.run_driver("c19_driver", rl) if drv_ok else [None] * len(rl)
+        for (a, b, c), got, mod in zip(triples, ra, rm):
+            want = a.replace(b, c) if b else a          # literal, leftmost, non-overlapping, inserted text not rescanned
+            chk.count("replace_all_triples")
+            chk.count("replace_all_occurrences:%s" % (min(a.count(b), 3) if b else "empty-pattern"))
+            for k in special_classes(c):
+                chk.count("replace_all_to_contains:" + k)
+            if any(ch in b for ch in ".^$|()[]{}*+?\\"):
+                chk.count("replace_all_from_has_regex_metacharacters")
+            if b and b in c:
+                chk.count("replace_all_to_contains_from")
+            if got.startswith(("died", "skipped", "bad-op")):
+                repl_fails.append(("vita::replace_all(%r, %r, %r) %s" % (a, b, c, got), (a, b, c), got))
+                continue
+            got = unhx(got).decode("latin1")
+            if got != want:
+                repl_fails.append(("vita::replace_all(%r, %r, %r) returns %r; replacing every occurrence of the pattern "
+                                   "(leftmost first, not overlapping) by the replacement text copied verbatim gives %r"
+                                   % (a, b, c, got, want), (a, b, c), got))
+            if mod is not None:
+                mp = mod.split()
+                if len(mp) != 3:
+                    broken.append("driver answered %r to a repl request" % mod)
+                    continue
+                if unhx(mp[0]).decode("latin1") != got and got == want:
+                    broken.append("Lean model replaceAll disagrees with vita::replace_all on (%r, %r, %r): model %r, code %r"
+                                  % (a, b, c, unhx(mp[0]).decode("latin1"), got))
+                if repl_ok and mp[1] != mp[0]:
+                    broken.append("the extracted body of vita::replace_all, run with the model's std::string semantics, "
+                                  "does not return replaceAll on (%r, %r, %r): %s" % (a, b, c, mp[1]))
+                if mp[2] != "lit=1":
+                    broken.append("replaceAll is not the `to`-independent segmentation joined with `to` on (%r, %r, %r)" % (a, b, c))
+        repl_fails.sort(key=lambda x: len(x[1][0]) + len(x[1][1]) + len(x[1][2]))
+        for what, (a, b, c), got in repl_fails[:3]:
+            chk.violation("[replace-all] " + what, {"repl": [hx(a), hx(b), hx(c)], "returned": got, "kind": "replace-all"},
+                          tags={"kind": "replace-all", "fmt": "-", "strings": "none", "names": "none", "origin": "repl"})
+        chk.count("replace_all_mismatches", len(repl_fails))
+    phase("replace_all differential")
     # ---- programs ----------------------------------------------------------------------------
     g_exact = Gen(rng, syms, True)
     g_any = Gen(rng, syms, False)
@@ -1042,7 +1218,7 @@ def run(chk, replay=None):
             if fn.endswith(".json"):
                 for item in json.load(open(os.path.join(cdir, fn))):
                     corpus.append(tuple_tree(item["tree"]))
-    forced_team, forced_stream = 0, None
+    forced_team, forced_stream, forced_inputs = 0, None, None
     if replay:
         r = json.load(open(replay))
         rp = r.get("replay", {})
@@ -1056,6 +1232,7 @@ def run(chk, replay=None):
             add(tuple_tree(rp["tree"]), "corpus",
                 (Genome.from_json(rp["genome"]), rp.get("layout", "?"), rp.get("share", "?")) if "genome" in rp else None)
             forced_stream = rp.get("stream_ops")
+            forced_inputs = rp.get("inputs")
     for t in corpus:
         add(t, "corpus")
     for fn in (sorted(os.listdir(cdir)) if os.path.isdir(cdir) and not replay else []):
@@ -1123,6 +1300,59 @@ def run(chk, replay=None):
                 else:
                     add(("F", s, ("S", "R"), [("T", "const:s", sconst, "S")]), "malformed-string")
 
+        # adversarial string constants (class labels of nominal attributes are arbitrary text): every escape
+        # combination in every string argument position, at nesting depths 1..4
+        s_positions = []                  # (symbol, d0, d1, position) whose argument domain is S
+        for sy in g_exact.funcs:
+            for d0 in sorted(set(dom0_of(sy.key))):
+                for d1 in (sorted(set(dom1_of(sy.key))) if sy.ncats == 2 else [d0]):
+                    for pos, d in enumerate(g_exact.arg_doms(sy, d0, d1)):
+                        if d == "S":
+                            s_positions.append((sy, d0, d1, pos))
+
+        def wrap(node, levels):
+            """`levels` random ancestors above `node`"""
+            g = g_exact
+            for _ in range(levels):
+                rd = result_dom(syms, node)
+                gps = [(q, q0, q1) for dd in DOMS for (q, q0, q1) in g.producers(dd) if rd in g.arg_doms(q, q0, q1)]
+                if not gps:
+                    break
+                q, q0, q1 = rng.choice(gps)
+                qpos = rng.choice([i for i, x in enumerate(g.arg_doms(q, q0, q1)) if x == rd])
+                node = g.apply(q, q0, q1, {qpos: node})
+            return node
+
+        for combo in ESCAPES + MARKERS + SPECIAL_CHARS:
+            for (sy, d0, d1, pos) in s_positions:
+                if quick and not rng.chance(0.34):
+                    continue
+                x = rng.below(4)
+                text = combo if x == 0 else rng.choice(FILLERS) + combo if x == 1 else combo + rng.choice(FILLERS) \
+                    if x == 2 else rng.choice(FILLERS) + combo + rng.choice(FILLERS + ESCAPES)
+                node = g_exact.apply(sy, d0, d1, {pos: ("T", "const:s", text, "S")})
+                add(wrap(node, rng.below(4)), "special-string")
+        # the same special text in SEVERAL arguments of one node (each replace_all call must leave the others alone)
+        for i in range(60 if quick else 600):
+            sy, d0, d1 = syms["str::ife"], "S", rng.choice(["S", "R"])
+            fixed = {0: ("T", "const:s", adv_string(rng, rng.chance(0.8)), "S"),
+                     1: ("T", "const:s", adv_string(rng, rng.chance(0.8)), "S")}
+            if d1 == "S":
+                fixed[2] = ("T", "const:s", adv_string(rng, True), "S")
+                fixed[3] = ("T", "const:s", adv_string(rng, True), "S")
+            add(wrap(g_exact.apply(sy, d0, d1, fixed), rng.below(3)), "special-string")
+        # adversarial VARIABLE NAMES (column headers of the data file are arbitrary text): in every argument
+        # position of every function (a variable exists in every domain)
+        for sy in g_exact.funcs:
+            for d0 in sorted(set(dom0_of(sy.key))):
+                for d1 in (sorted(set(dom1_of(sy.key))) if sy.ncats == 2 else [d0]):
+                    for pos, d in enumerate(g_exact.arg_doms(sy, d0, d1)):
+                        if quick and sy.key == "str::ife" and not rng.chance(0.4):
+                            continue
+                        vi = rng.choice([i for i, (n, dd) in enumerate(VARS) if dd == d])
+                        node = g_exact.apply(sy, d0, d1, {pos: ("T", "var", (adv_name(rng), vi), d)})
+                        add(wrap(node, rng.below(3)), "special-name")
+
         # string equality held in different variables / literals (SIFE compares addresses in C)
         for a, b in [(("T", "var", ("S1", 3), "S"), ("T", "var", ("S2", 4), "S")),
                      (("T", "var", ("S1", 3), "S"), ("T", "const:s", "abc", "S")),
@@ -1189,6 +1419,8 @@ def run(chk, replay=None):
     p_extra = 0.0 if replay else (0.03 if quick else 0.02)
     for pid, (t, origin) in enumerate(programs):
         ins = input_vectors(rng, nin)
+        if forced_inputs and len(programs) == 1:
+            ins = forced_inputs           # a replay evaluates the program on the recorded input vectors
         inputs_of[pid] = ins
         lines.append(harness_line(syms, genomes[pid][0], ins))
         what_line.append(("prog", pid))
@@ -1249,12 +1481,17 @@ def run(chk, replay=None):
 
     phase("harness (vita)")
     # ---- the oracles and the model run side by side -------------------------------------------------
+    # programs with variables that are not the harness inputs X1.. (adversarial names): the C / C++ oracles declare
+    # only those, so such programs are checked at the text level, by the Lean model and by python3's parser only
+    custom = {p for p in texts if has_custom_names(programs[p][0])}
+    chk.count("programs_with_adversarial_variable_names(no clang/gcc oracle)", len(custom))
+
     # clang's parser (C and C++): actual vs fully parenthesised
     def clang_job(lang, f):
         A, B = {}, {}
         # programs with unescaped quotes etc. go to their own translation unit (error cascades)
-        for part, ids in (("n", [p for p in sorted(texts) if str_class(programs[p][0]) == "none"]),
-                          ("s", [p for p in sorted(texts) if str_class(programs[p][0]) != "none"])):
+        for part, ids in (("n", [p for p in sorted(texts) if str_class(programs[p][0]) == "none" and p not in custom]),
+                          ("s", [p for p in sorted(texts) if str_class(programs[p][0]) != "none" and p not in custom])):
             if not ids:
                 continue
             A.update(clang_trees("ast_%s_%s_a" % (lang, part), lang,
@@ -1270,6 +1507,8 @@ def run(chk, replay=None):
 
     exact_ids = []
     for p in sorted(texts):
+        if p in custom:
+            continue
         if not prints_exactly(programs[p][0]):
             chk.count("value_check_skipped_constants_do_not_print_exactly")
         else:
@@ -1441,6 +1680,27 @@ def run(chk, replay=None):
                 chk.count("fractional_terminals")
             if tm[1] == "const:s":
                 chk.count("string_constants")
+
+        def walks(n, d, parent):
+            if n[0] == "F":
+                for i, k in enumerate(n[3]):
+                    walks(k, d + 1, "%s.%d" % (n[1], i))
+            elif n[1] == "const:s" or is_custom_var(n):
+                text = n[2] if n[1] == "const:s" else n[2][0]
+                cl = special_classes(text)
+                what = "string" if n[1] == "const:s" else "name"
+                if what == "name":
+                    chk.count("variable_names:" + ("identifier" if IDENT.match(text) else "not-an-identifier"))
+                if cl:
+                    chk.count("special_%ss" % what)
+                    for k in cl:
+                        chk.count("special_%s_contains:%s" % (what, k))
+                    chk.count("special_%s_at:%s" % (what, parent))
+                    chk.count("special_%s_depth:%s" % (what, d if d < 6 else "6+"))
+                    if what == "string":
+                        chk.count("special_string_class:" + ("known-finding(quote/backslash/newline/marker)"
+                                                             if KNOWN_BAD.search(text) else "plain"))
+        walks(t, 0, "root")
     children = sorted({c for p in pairs.values() for c in p})
     chk.cov["pair_matrix"] = {"children": children,
                               "rows": {p: [pairs[p].get(c, 0) for c in children] for p in sorted(pairs)}}
@@ -1465,7 +1725,7 @@ def run(chk, replay=None):
 
     def fail(pid, f, kind, detail):
         t = programs[pid][0]
-        tags = {"kind": kind, "fmt": FMT[f], "strings": str_class(t), "origin": programs[pid][1]}
+        tags = {"kind": kind, "fmt": FMT[f], "strings": str_class(t), "names": names_class(t), "origin": programs[pid][1]}
         what = "[%s/%s] %s\n  program: %s\n  printed: %s\n  genome (active genes, %d rows x %d categories, %s/%s): %s" % (
             FMT[f], kind, detail, show(t), texts[pid][f][:400], genomes[pid][0].n, len(genomes[pid][0].doms),
             genomes[pid][1], genomes[pid][2], show_genome(g_exact, genomes[pid][0])[:600])
@@ -1514,12 +1774,12 @@ def run(chk, replay=None):
                 chk.count("hypothesis_clean_terminal_violated")
             if flags.get("adm") == "1":
                 chk.count("programs_x_formats_within_theorem_hypotheses")
-            elif str_class(t) == "none" and not any("%%" in tm[2] or tm[2].endswith("%") for tm in terminals_of(t)
-                                                    if tm[1] == "const:s"):
+            elif str_class(t) == "none" and names_class(t) == "none" and not any(
+                    "%%" in tm[2] or tm[2].endswith("%") for tm in terminals_of(t) if tm[1] == "const:s"):
                 broken.append("a generated program with harmless terminals is outside the hypotheses of the "
                               "theorems (Admissible fails): %s [%s]" % (show(t), FMT[f]))
             else:
-                chk.count("programs_x_formats_outside_theorem_hypotheses(special strings)")
+                chk.count("programs_x_formats_outside_theorem_hypotheses(special strings / names)")
             if flags["term"] != "1":
                 fail(pid, f, "terminal-not-an-operand", "a terminal's text is not a self-contained operand (termOk fails)")
             elif flags["parse"] != "1" or flags["ok"] != "1" or flags["lex"] != "1":
@@ -1566,6 +1826,8 @@ def run(chk, replay=None):
     phase("clang+gcc oracles")
     for lang, f, A, B in clang_res:
         for pid in texts:
+            if pid in custom:
+                continue
             a, b = A.get(pid), B.get(pid)
             chk.count("clang_ast_checked_" + lang)
             if a is None or b is None:
@@ -1621,10 +1883,20 @@ def run(chk, replay=None):
     # `value-<cause>`; however much a later discontinuous primitive amplified the difference.  Any
     # other mismatch stays an unmatched `value` violation.
     CAUSES = {"sigmoid-formula": ("real::sigmoid", "vc19_sig(%%1%%)"),
-              "sife-address": ("str::ife", lambda n: "(strcmp(%%1%%,%%2%%)==0 ? %%3%% : %%4%%)" if n[2][0] == "S" else None)}
+              "sife-address": ("str::ife", lambda n: "(strcmp(%%1%%,%%2%%)==0 ? %%3%% : %%4%%)" if n[2][0] == "S" else None),
+              "libm-pow-square": ("real::aq", "vc19_aq(%%1%%,%%2%%)")}
+    # causes that are a limit of the ORACLE, not a property of the exported text: under a correctly rounded libm
+    # pow(y, 2.0) IS y * y (glibc's pow is only within 1 ulp: pow(-123456789.0, 2.0) != -123456789.0 * -123456789.0);
+    # gcc 12 folds `0.0 - (double)strlen(s)` to `-(double)strlen(s)` at -O0 (-0.0 instead of +0.0 for an empty s),
+    # clang does not.  They are attributed as exactly as the findings: the text recompiled with the square computed by
+    # `*` / recompiled with clang must agree bit for bit with vita::run on every input; then the case is counted
+    # (`value_mismatch_explained_by_the_oracle:*`), not reported.
+    ORACLE_CAUSES = {"libm-pow-square"}
 
     def applicable(t):
         out = []
+        if "real::aq" in symbols_of(t):
+            out.append("libm-pow-square")
         if "real::sigmoid" in symbols_of(t):
             out.append("sigmoid-formula")
         if sife_on_strings(t):
@@ -1637,29 +1909,39 @@ def run(chk, replay=None):
                     and bitsd(int(g[2:])) == 0.0 and bitsd(int(w[2:])) == 0.0)
                    for g, w in zip(got, values[p]))
 
-    variants, vin = [], {}          # (variant id, pid, causes)
-    for pid in sorted({pid for pid, _, _, _ in mism}):
-        t = programs[pid][0]
-        if texts[pid][0] != oracle_text(syms, t, 0, False):
+    def subsets_of(cs, with_empty):
+        out = [[]] if with_empty else []
+        for size in range(1, len(cs) + 1):
+            for mask in range(1, 1 << len(cs)):
+                sub = [c for i, c in enumerate(cs) if mask >> i & 1]
+                if len(sub) == size:
+                    out.append(sub)
+        return out
+
+    cause_of = {}               # pid -> (causes, compiler)
+    for stage, cc in ((1, "gcc"), (2, "clang")):
+        variants, vin = [], {}          # (variant id, pid, causes)
+        for pid in sorted({pid for pid, _, _, _ in mism}):
+            t = programs[pid][0]
+            if pid in cause_of or texts[pid][0] != oracle_text(syms, t, 0, False):
+                continue
+            for sub in subsets_of(applicable(t), cc == "clang"):
+                vid = len(variants)
+                variants.append((vid, pid, sub))
+                vin[vid] = inputs_of[pid]
+        if not variants:
             continue
-        cs = applicable(t)
-        subsets = [[c] for c in cs] + ([cs] if len(cs) > 1 else [])
-        for sub in subsets:
-            vid = len(variants)
-            variants.append((vid, pid, sub))
-            vin[vid] = inputs_of[pid]
-    cause_of = {}
-    if variants:
         try:
-            v2, e2 = compile_and_run("run_attr", [(vid, result_dom(syms, programs[p][0]),
-                                                   oracle_text(syms, programs[p][0], 0, False,
-                                                               override={CAUSES[c][0]: CAUSES[c][1] for c in sub}))
-                                                  for vid, p, sub in variants], vin)
+            v2, e2 = compile_and_run("run_attr_%s" % cc,
+                                     [(vid, result_dom(syms, programs[p][0]),
+                                       oracle_text(syms, programs[p][0], 0, False,
+                                                   override={CAUSES[c][0]: CAUSES[c][1] for c in sub}))
+                                      for vid, p, sub in variants], vin, cc=cc)
             for vid, p, sub in variants:
                 if p not in cause_of and vid in v2 and same_values(p, v2[vid]):
-                    cause_of[p] = "+".join(sub)
+                    cause_of[p] = (sub, cc)
         except OracleTimeout:
-            chk.count("oracle_batches_skipped_timeout(gcc)")
+            chk.count("oracle_batches_skipped_timeout(%s)" % cc)
     for pid, j, g, w in mism:
         kind = "value"
         det = "compiled C text returns %s, the interpreter %s on input %s" % (g, w, " ".join(inputs_of[pid][j]))
@@ -1667,11 +1949,18 @@ def run(chk, replay=None):
             a, b = bitsd(int(g[2:])), bitsd(int(w[2:]))
             det += " (%r vs %r)" % (a, b)
         if pid in cause_of:
-            kind = "value-" + cause_of[pid]
+            sub, cc = cause_of[pid]
+            real = [c for c in sub if c not in ORACLE_CAUSES]
+            if not real:
+                chk.count("value_mismatch_explained_by_the_oracle:" + "+".join(
+                    sub + (["gcc-only(clang-14 agrees with the interpreter)"] if cc == "clang" else [])))
+                continue
+            kind = "value-" + "+".join(real)
             det += "; recompiled with " + " and ".join(
                 {"sigmoid-formula": "every FSIGMOID computed by the interpreter's formula (x<0: exp(x)/(1+exp(x)))",
-                 "sife-address": "every SIFE over strings comparing the text (strcmp) instead of the addresses"}[c]
-                for c in cause_of[pid].split("+")) + " the same text agrees bit for bit on every input"
+                 "sife-address": "every SIFE over strings comparing the text (strcmp) instead of the addresses",
+                 "libm-pow-square": "the square of AQ computed by a correctly rounded multiplication instead of glibc's pow"}[c]
+                for c in sub) + (" (clang-14)" if cc == "clang" else "") + " the same text agrees bit for bit on every input"
         fail(pid, 0, kind, det)
     chk.count("values_compared", nval)
     chk.count("values_skipped_interpreter_void", nvoid)
